@@ -337,6 +337,16 @@ def traise (s : Cache) (n : Nat) : Cache :=
     | none => { s with depth := 0 }
   else { s with depth := s.depth - n }
 
+/-- a value file written INSIDE a transaction body (by `incr`) is recorded as created by the
+enclosing transaction block (core.py `incr`: `self._txn_created.append(columns[4])`, fix D24), so
+that a rollback of the block removes it.  Outside a block the list belongs to the call's own
+transaction, whose body cannot fail after the store: nothing to record.  A Python-side list
+append: not part of the statement trace. -/
+def regCreated (s : Cache) (f : Option Nat) : Cache :=
+  match f with
+  | some f => if s.depth > 0 then { s with created := s.created ++ [f] } else s
+  | none => s
+
 /-! ### store / fetch against the file set -/
 
 /-- `Disk.store`: decide the placement and write the file (before BEGIN). -/
@@ -452,6 +462,7 @@ def incr (s : Cache) (E : Externals) (now : Int) (k : PyVal) (delta : Int) (dflt
         match s.store E (.int value) false with
         | .error _ => { s := s, out := .exc "UnicodeEncodeError", ok := false }
         | .ok (s, c) =>
+          let s := s.regCreated c.file
           match upd with
           | none =>
             let s := s.insRow dbk raw now c
